@@ -144,14 +144,19 @@ func ridStrs(rs []page.RID) []string {
 // genKeyMaxPad: padding of long varchar keys (the B-tree index documents a key limit of MaxKeyLen-14 = 36 bytes)
 var genKeyMaxPad = 170
 
+// genKeyExtremes: boundary integer keys (a fifth of the runs; see known finding btree-extreme-int-key)
+var genKeyExtremes = false
+
 func genKey(r *rng, kt ColType, space int) any {
 	switch kt {
 	case TInt:
-		switch r.Intn(20) {
-		case 0:
-			return int32(2147483646)
-		case 1:
-			return int32(-2147483647)
+		if genKeyExtremes {
+			switch r.Intn(20) {
+			case 0:
+				return int32(2147483646)
+			case 1:
+				return int32(-2147483647)
+			}
 		}
 		return int32(r.Intn(space) - space/4)
 	case TFloat:
@@ -174,6 +179,7 @@ func runIdxSim(seed uint64, cfg UnitCfg, dir string) (res unitResult) {
 	parts := strings.Split(cfg.Kind, ":")
 	kind := parts[0]
 	kt := map[string]ColType{"int": TInt, "float": TFloat, "varchar": TVarchar}[parts[1]]
+	genKeyExtremes = seed%5 == 0
 	genKeyMaxPad = 170
 	if kind == "btree" {
 		genKeyMaxPad = 15 // B-tree: encoded key (string + 12 bytes) must stay <= 36 bytes
@@ -588,7 +594,7 @@ func (cr *ConRun) runIndex() {
 		}
 		cr.Viol = append(cr.Viol, violations...)
 	default:
-		if cr.Cfg.Policy == simrt.PolRandom || cr.Cfg.Policy == simrt.PolRoundRobin {
+		if cr.Cfg.Policy == simrt.PolRandom {
 			cr.Viol = append(cr.Viol, Violation{Property: "C17", Class: "no-progress:" + cr.Res.Outcome, Detail: kind + " index: " + strings.Join(firstN(cr.Res.Blocked, 10), "; ")})
 		} else {
 			cr.stat("inconclusive_"+cr.Res.Outcome, 1)
